@@ -493,7 +493,7 @@ def build_ops(chk, exe, rng):
             if not quick or L % 2 == 0 or L < 48:
                 ops.append(f"m {state} {hx(base)} #len-mirror")
     # (2) request stacks: mirrored reply, perturbations, truncations, structural variants
-    n = 260 if quick else 9000
+    n = 260 if quick else 16000
     mult = 1 if quick else 2
     stacks = [gen_stack(rng) for _ in range(n)]
     gens = run_gen(exe, stacks)
@@ -562,8 +562,13 @@ def run(chk):
     chk.trusted += ["correspondence harness harness/c14_match.cpp + generators in checks/C14.py",
                     "header sizes and protocol constants: `layout` op compares the tree's sizeof()/enums with the model's constants",
                     "g++ 12 / ASan+UBSan build of the repo's working tree; exact-size malloc block per reply buffer"]
-    chk.extra["modelled_not_proved"] = ["BootP/DHCP, DHCPv6, ARP, Loopback, PDUCacher, IPv6 extension-header walk: "
-                                        "model + matcher_noFault + correspondence, no accept/reject specification clause"]
+    chk.extra["modelled_not_proved"] = ["BootP/DHCP, DHCPv6, ARP, Loopback, RawPDU, PDU default, PDUCacher: matcher_noFault + closed-form "
+                                        "theorems + correspondence; they have no clause in the mirrored-reply specification (oracle: unspecified)",
+                                        "IPv6 replies carrying extension headers: extension walk modelled, fault-freedom and fuel bound proved, "
+                                        "correspondence on generated chains; the specification's accept/reject clauses cover replies without "
+                                        "extension headers only",
+                                        "Dot3 / RadioTap requests: refinement of the byte-level specification proved, not part of mirror_accepted's "
+                                        "request grammar"]
     corr.finalize_cov(chk)
 
 
